@@ -135,6 +135,32 @@ def apalache(cwd, module, args, timeout=300):
     return rc, out, wall
 
 
+def apalache_inductive(v, sc, module, twins, key, stage):
+    """Init => IndInv and IndInv /\\ Next => IndInv' for spec/<module>.tla (symbolic parameters), plus twins (name, old text, new text, what)
+    derived by substitution that must each yield a counter-example of the step. Any other outcome is inconclusive, never a verdict."""
+    sub = os.path.join(sc, module.lower())
+    os.makedirs(sub, exist_ok=True)
+    stage(sub)
+    src = open(os.path.join(sub, module + ".tla")).read()
+    jobs = [(module + ".tla", ["--init=Init", "--inv=IndInv", "--length=0"], False), (module + ".tla", ["--init=IndInit", "--inv=IndInv", "--length=1"], False)]
+    for name, old, newtxt, what in twins:
+        if src.count(old) != 1:
+            raise Inconclusive("cannot derive the twin %s of %s.tla" % (name, module))
+        open(os.path.join(sub, name + ".tla"), "w").write(src.replace("MODULE " + module, "MODULE " + name).replace(old, newtxt))
+        jobs.append((name + ".tla", ["--init=IndInit", "--inv=IndInv", "--length=1"], True))
+    res = {}
+    for mod, args, expect_error in jobs:
+        rc, out, wall = apalache(sub, mod, args, timeout=600)
+        err = "The outcome is: Error" in out
+        if not err and "The outcome is: NoError" not in out:
+            raise Inconclusive("apalache failed on %s %s\n%s" % (mod, args, out[-2000:]))
+        if err != expect_error:
+            raise Inconclusive("%s obligation %s %s: expected %s" % (module, mod, args, "a counter-example" if expect_error else "NoError"))
+        res["%s %s" % (mod, " ".join(args))] = "counter-example (expected, twin)" if err else "NoError (%.0fs)" % wall
+    v.cov[key] = res
+    return res
+
+
 # --------------------------------------------------------------------------- Go harness
 def harness_dir():
     """the harness module directory; for VERIF_REPO != /repo (mutant trials on scratch worktrees) a private copy
